@@ -12,6 +12,7 @@ import (
 	"errors"
 	"fmt"
 	"math/rand"
+	"net"
 	"os"
 	"path/filepath"
 	"sync"
@@ -130,10 +131,18 @@ func (f *fakeStream) Send(p *proto.BeaconPacket) error {
 	return nil
 }
 
-type tcpAddr struct{ s string }
+// conn is the key of a connection (remote host and source port) as used in the events: the model
+// identifies a client stream by its connection, whatever id the code derives from it.
+func conn(host, port int) int { return host*100000 + port }
 
-func (a tcpAddr) Network() string { return "tcp" }
-func (a tcpAddr) String() string  { return a.s }
+// peerAddr is the gRPC peer address of a connection key (keys below 100000: that host, port 7000).
+func peerAddr(key int) *net.TCPAddr {
+	host, port := key/100000, key%100000
+	if host == 0 {
+		host, port = key, 7000
+	}
+	return &net.TCPAddr{IP: net.IPv4(203, 0, 113, byte(host)), Port: port}
+}
 
 // ---- CallbackStore wrapper that announces and gates AddCallback ----
 type gatedStore struct {
@@ -200,15 +209,16 @@ type streamRun struct {
 	atGate  bool
 	phase   string // scan | wait | live | done
 	// shadow bookkeeping, used only to know how long to wait
-	qlen      int
-	busy      bool
-	cid       int
-	windowed  bool            // a Put happened between this stream's snapshot / last scan read and its AddCallback
-	winRounds map[uint64]bool // the rounds of those Puts
-	base      uint64
-	started   bool
-	from      uint64 // requested round
-	headAt    uint64 // the server's last stored round when the request arrived
+	qlen           int
+	busy           bool
+	cid            int
+	windowed       bool            // a Put happened between this stream's snapshot / last scan read and its AddCallback
+	winRounds      map[uint64]bool // the rounds of those Puts
+	base           uint64
+	started        bool
+	registeredOnce bool
+	from           uint64 // requested round
+	headAt         uint64 // the server's last stored round when the request arrived
 }
 
 type world struct {
@@ -468,7 +478,7 @@ func (w *world) do(e event) {
 		}
 	case evStart:
 		fs := &fakeStream{entered: make(chan sent, 1024), ack: make(chan bool)}
-		addr := tcpAddr{fmt.Sprintf("203.0.113.%d:7000", e.cid)}
+		addr := peerAddr(e.cid) // a real gRPC peer context: internal/net derives the callback id from it
 		fs.ctx, fs.cancel = context.WithCancel(peer.NewContext(context.Background(), &peer.Peer{Addr: addr}))
 		gs := &gatedStore{CallbackStore: w.cbs, atAdd: make(chan struct{}, 1), gate: make(chan struct{}), added: make(chan struct{}, 1)}
 		r := &streamRun{fs: fs, gs: gs, done: make(chan error, 1), phase: "scan", cid: e.cid, started: true, winRounds: map[uint64]bool{}}
@@ -586,6 +596,7 @@ func (w *world) do(e event) {
 			return
 		}
 		w.reg[r.cid] = e.k
+		r.registeredOnce = true
 		r.phase = "live"
 		r.busy, r.qlen = false, 0
 		// SyncChain now sends what was stored since its snapshot / last scan read
@@ -841,6 +852,30 @@ func witnessScenarios(rng *rand.Rand) []scenario {
 	s9 = append(s9, puts(rng, 1)...)
 	s9 = append(s9, event{kind: evAck, k: 1, ok: true})
 	out = append(out, scenario{name: "reconnect-same-id-while-old-stream-stalled", genesis: 7, script: s9})
+	// two clients on one host (different source ports) at the same time: both are served
+	s10 := puts(rng, 2)
+	s10 = append(s10, event{kind: evStart, cid: conn(5, 41001), from: 0}, event{kind: evRegister, k: 0},
+		event{kind: evStart, cid: conn(5, 41002), from: 1}, event{kind: evAck, k: 1, ok: true}, event{kind: evAck, k: 1, ok: true}, event{kind: evRegister, k: 1},
+		event{kind: evStart, cid: conn(8, 41001), from: 0}, event{kind: evRegister, k: 2})
+	s10 = append(s10, puts(rng, 1)...)
+	s10 = append(s10, event{kind: evAck, k: 0, ok: true}, event{kind: evAck, k: 1, ok: true}, event{kind: evAck, k: 2, ok: true})
+	s10 = append(s10, puts(rng, 1)...)
+	s10 = append(s10, event{kind: evAck, k: 0, ok: true}, event{kind: evAck, k: 1, ok: true}, event{kind: evAck, k: 2, ok: true})
+	out = append(out, scenario{name: "two-streams-one-host", genesis: 7, script: s10})
+	// a client reconnects from a new source port while its old connection is stalled; the old one is
+	// torn down later (its Send fails): the new stream keeps being served
+	s11 := puts(rng, 2)
+	s11 = append(s11, event{kind: evStart, cid: conn(6, 41001), from: 0}, event{kind: evRegister, k: 0})
+	s11 = append(s11, puts(rng, 1)...) // the old stream enters Send(3) and stays there
+	s11 = append(s11, event{kind: evStart, cid: conn(6, 41002), from: 2}, event{kind: evAck, k: 1, ok: true}, event{kind: evAck, k: 1, ok: true},
+		event{kind: evRegister, k: 1})
+	s11 = append(s11, puts(rng, 1)...)
+	s11 = append(s11, event{kind: evAck, k: 1, ok: true}, event{kind: evAck, k: 0, ok: false})
+	s11 = append(s11, puts(rng, 1)...)
+	s11 = append(s11, event{kind: evAck, k: 1, ok: true})
+	s11 = append(s11, puts(rng, 1)...)
+	s11 = append(s11, event{kind: evAck, k: 1, ok: true})
+	out = append(out, scenario{name: "reconnect-from-new-port", genesis: 7, script: s11})
 	// consumers that are gone exactly in the hand-over: a beacon is stored between the end of the scan
 	// and AddCallback, and the Send of that beacon fails; one connection (address) after the other
 	var s7 []event
@@ -900,6 +935,9 @@ func randomScenario(rng *rand.Rand, windowPuts bool) scenario {
 		switch {
 		case x < 12 && len(st) < nstreams+1:
 			cid := 1 + rng.Intn(2)
+			if rng.Intn(3) == 0 {
+				cid = conn(cid, 41000+rng.Intn(2)) // same host, another source port
+			}
 			var from int
 			switch rng.Intn(6) {
 			case 0:
@@ -1024,6 +1062,8 @@ type outcome struct {
 	nreg    int // callbacks registered in the real callback store at the end
 	running int // SyncChain calls that have not returned
 	froms   []uint64
+	cids    []int  // connection key of every stream
+	didReg  []bool // the stream executed AddCallback (and stayed: not cancelled at registration)
 	headsAt []uint64
 	head    uint64
 	idleReg []bool // per stream: registered, in its live phase and with no Send in progress at the end
@@ -1058,6 +1098,8 @@ func runOne(root string, sc scenario, backend, stack string) (outcome, error) {
 	o.head = w.head
 	for k, r := range w.runs {
 		o.froms = append(o.froms, r.from)
+		o.cids = append(o.cids, r.cid)
+		o.didReg = append(o.didReg, r.registeredOnce)
 		o.headsAt = append(o.headsAt, r.headAt)
 		kk, isReg := w.reg[r.cid]
 		o.idleReg = append(o.idleReg, isReg && kk == k && r.phase == "live" && r.pending == nil)
@@ -1164,6 +1206,20 @@ func monitor(rep *emit.Report, o outcome) {
 				failOnce(rep, "C11-request-beyond-head-not-refused", "a request from a round beyond the server's head was not refused", inb)
 			}
 		}
+		// a stream is ended with "callback replaced" only by a later stream of the SAME connection
+		if x.err == "Replaced" {
+			replacedBySame := false
+			for j := range o.obs {
+				if j != k && o.cids[j] == o.cids[k] && o.didReg[j] {
+					replacedBySame = true
+				}
+			}
+			if !replacedBySame {
+				failOnce(rep, "C11-stream-ended-while-client-connected",
+					fmt.Sprintf("stream %d (connection %s) was ended with 'callback replaced' although no other stream of that connection registered: a stream of another connection took its callback id", k, peerAddr(o.cids[k])),
+					map[string]interface{}{"scenario": o.sc.name, "backend": o.backend, "stack": o.stack, "stream": k, "connection": peerAddr(o.cids[k]).String(), "sent": rounds})
+			}
+		}
 		// a registered live stream with no Send in progress has been handed every stored beacon, whatever
 		// the other streams' consumers do
 		if o.idleReg[k] && x.err == "" {
@@ -1175,7 +1231,7 @@ func monitor(rep *emit.Report, o outcome) {
 				ins := map[string]interface{}{"scenario": o.sc.name, "backend": o.backend, "stack": o.stack, "stream": k, "sent": rounds, "server_last_round": o.head}
 				what := fmt.Sprintf("stream %d is registered, every Send it was given has returned, yet it was only sent up to round %d while the store is at round %d", k, last, o.head)
 				failOnce(rep, "C11-live-stream-starved", what, ins)
-				failOnce(rep, "C14-stream-wedged-behind-stalled-stream", what+" (it waits behind another stream whose consumer stopped reading)", ins)
+				failOnce(rep, "C14-stream-wedged-behind-stalled-stream", what+" (what serves it is held or was removed by another stream)", ins)
 			}
 		}
 		// contiguous from the start round?
@@ -1336,7 +1392,7 @@ func Run(outDir string, seed int64, tier string) error {
 		}
 	}
 	rep.DistinctNontrivial = len(distinct)
-	rep.Rule = "real SyncChain over the daemon's store stack callback(append(scheme(back-end))) with a chained and an unchained scheme (beacons arrive with the previous signature set) and over the bare callback store, on memdb, trimmed bolt and untrimmed bolt; every delivered beacon (round, signature, previous signature) is compared with what the store returns for that round; the callbacks left in the real callback store (sync_total_callbacks gauge) are compared with the SyncChain calls still running; Send and AddCallback gated so that the harness places every Put relative to each scan step and registration; witness scripts (Puts whose context is cancelled between the commit and the dispatch or before the call while several streams are live, Put between scan end and AddCallback, Put during the scan, no Put in the window, same-id reconnect, start at 0 / head / beyond head; a Put paused between its store write and its dispatch while AddCallback runs - monitor only; a chained store with a deleted middle round walked from below the hole - monitor only; a second stream from the same address while the first one's Send never returns) and random scripts with 1-3 concurrent streams, reconnects, refused Sends and Puts with cancelled contexts; distinct = distinct (back-end, event); an evaluation = one event"
+	rep.Rule = "real SyncChain over the daemon's store stack callback(append(scheme(back-end))) with a chained and an unchained scheme (beacons arrive with the previous signature set) and over the bare callback store, on memdb, trimmed bolt and untrimmed bolt; every delivered beacon (round, signature, previous signature) is compared with what the store returns for that round; the callbacks left in the real callback store (sync_total_callbacks gauge) are compared with the SyncChain calls still running; Send and AddCallback gated so that the harness places every Put relative to each scan step and registration; the fake streams carry real gRPC peer contexts (host and source port; several connections from one host), so the callback id is the one internal/net derives; witness scripts (two clients on one host, reconnect from a new port while the old connection is stalled, Puts whose context is cancelled between the commit and the dispatch or before the call while several streams are live, Put between scan end and AddCallback, Put during the scan, no Put in the window, same-id reconnect, start at 0 / head / beyond head; a Put paused between its store write and its dispatch while AddCallback runs - monitor only; a chained store with a deleted middle round walked from below the hole - monitor only; a second stream from the same address while the first one's Send never returns) and random scripts with 1-3 concurrent streams, reconnects, refused Sends and Puts with cancelled contexts; distinct = distinct (back-end, event); an evaluation = one event"
 	if err := rep.Shard(outDir, "cases_stream", []string{"From DV Require Import Model.Stream Corr.StreamCorr."}, "scase", "mismatches", cases, descr, 60); err != nil {
 		return err
 	}
